@@ -172,6 +172,9 @@ def run(ctx, known, built):
         hist[key] = hist.get(key, 0) + 1
         rep = {"id": r["id"], "options": r["opts"], "bytes_hex": r["bytes"], "verdict": r["verdict"], "field": r["field"],
                "classes": r["classes"], "glif": bytes.fromhex(r["bytes"]).decode("utf-8", "replace")}
+        if r.get("l1_fail"):
+            ctx.disagreements.append({"what": "library hypothesis of the theorems fails on a value of this case",
+                                      "detail": r["l1_fail"], "id": r["id"]})
         if r["enc"].startswith("PANIC"):
             rep["demand"] = "encode_xml_with_options does not panic"
             ctx.violations.append(rep)
